@@ -1099,10 +1099,19 @@ func subsetLayout(r *rand.Rand, f *sfnt.Font, n int, info *Info) {
 			})
 			info.Classes = append(info.Classes, "layout:lookup-order-shuffled")
 		}
-		if r.IntN(4) == 0 {
+		switch r.IntN(6) {
+		case 0:
 			for _, l := range gsub.LookupList {
 				l.Meta.LookupFlags = gtab.RightToLeft // (no GDEF: the ignore flags could not act)
 			}
+		case 1:
+			// a mark filtering set is named although the font has no GDEF table
+			// (the flag and the two bytes of the index belong to the lookup)
+			for _, l := range gsub.LookupList {
+				l.Meta.LookupFlags = gtab.UseMarkFilteringSet
+				l.Meta.MarkFilteringSet = uint16(r.IntN(3))
+			}
+			info.Classes = append(info.Classes, "layout:mark-filtering-set-without-gdef")
 		}
 		feat := &gtab.Feature{Tag: "liga"}
 		for i := range gsub.LookupList {
